@@ -76,6 +76,12 @@ Theorem C01_euler_range_partial : forall a b c d : R,
 Proof. exact qu2eu_generic_range. Qed.
 Print Assumptions C01_euler_range_partial.
 
+(* gimbal branch Phi = 0 (b = c = 0 exactly): the returned (phi1, 0, 0) describe q *)
+Theorem C01_euler_gimbal0 : forall a d : R,
+  a * a + d * d = 1 -> bunge (qu2eu ROps (a, 0, 0, d)) = qu2om ROps (a, 0, 0, d).
+Proof. exact qu2eu_gimbal0_matrix. Qed.
+Print Assumptions C01_euler_gimbal0.
+
 Theorem C01_euler_gimbal_pi_refuted :
   exists q : quat, qnorm2 ROps q = 1 /\ bunge (qu2eu ROps q) <> qu2om ROps q.
 Proof. exact qu2eu_gimbal_pi_refuted. Qed.
